@@ -16,3 +16,15 @@ Theorem C10_layout_independent_partial : forall l1 tr1 l2 tr2,
   parse (layout_text l1 tr1) = parse (layout_text l2 tr2).
 Proof. exact c10_layout. Qed.
 Print Assumptions C10_layout_independent_partial.
+
+(* (c) nicknames instead of numbers, token by token: in any reader state whose nickname table maps [nick] to candidate [cid],
+   the nickname and ANY decimal spelling [d] of the number cid (any script, leading zeros) are resolved by getCid to the same
+   candidate -- so a ranking, a [tie ...] or a [withdrawn ...] list written with nicknames is read as the one written with
+   numbers.  (A token made of digits alone is always a number: [all_digits nick = false].)  That the two whole files are
+   then read as the same profile is checked by the reader correspondence and the re-presentation oracle: _partial. *)
+Theorem C10_nickname_and_number_name_the_same_candidate_partial : forall (st : pst) (nick d : ustr) (cid : Z),
+  all_digits nick = false -> smap_get nick (s_nickCid st) = Some cid -> s_nickCid st <> [] ->
+  denotes d cid -> (0 < cid <= s_nCand st)%Z ->
+  getCid st nick = Ok cid /\ getCid st d = Ok cid.
+Proof. exact nick_or_number. Qed.
+Print Assumptions C10_nickname_and_number_name_the_same_candidate_partial.
